@@ -52,7 +52,9 @@ func muxPanics(paths []string) (p bool) {
 }
 
 var crashPaths = []string{"/", "/a", "/a/", "/a/{x}", "/a/{y}", "/a/{x}/{x}", "/{x...}", "/{$}", "/{", "/a/{x", "a", "", "GET /a", "POST /a", "GET  /a",
-	"get /a", "GET /", "example.com/", "example.com/a", "/b/{x...}/c", "/é", "/" + strings.Repeat("x", 10000), "/a b", "//", "/a//b", "/%zz", "GET /a/{x}", "/a/{$}"}
+	"get /a", "GET /", "example.com/", "example.com/a", "/b/{x...}/c", "/é", "/" + strings.Repeat("x", 10000), "/a b", "//", "/a//b", "/%zz", "GET /a/{x}", "/a/{$}",
+	// a literal * segment next to the subtree and the exact forms it could be confused with
+	"/a/*", "/*", "/a/*", "/*", "/a/", "/"}
 var crashNames = []string{"n1", "n2", "n3", "", "n1", "é", strings.Repeat("n", 5000)}
 
 type routeSpec struct{ name, path string }
